@@ -118,7 +118,7 @@ Inductive kont :=
 
 Inductive pc :=
 | PIdle
-| PCrash                                  (* dereferenced a null link pointer *)
+| PCrash (hl : list link)                 (* dereferenced a null / wild pointer, holding the locks of hl *)
 (* push_back b                                             [atomic_intrusive_list.cpp:137-159] *)
 | PB1 (b : nat)                           (* pred_link = sentinel_.self.load(acquire) *)
 | PB2 (b : nat) (k : link)                (* holds k: item.self.store(pred_link, release) *)
@@ -512,7 +512,7 @@ Definition start (s : st) (t : nat) (o : op) : option (st * list ev) :=
           then Some (set_pc (lin s1 t (spec_pop l)) t (PP1 l v), [EAcq (LHead l) v])
           else match v with
                | PNode a => Some (set_pc s1 t (PP2 l a), [EAcq (LHead l) v])
-               | _ => Some (with_crash (set_pc s1 t PCrash) true, [EAcq (LHead l) v; ECrash])
+               | _ => Some (with_crash (set_pc s1 t (PCrash [LHead l])) true, [EAcq (LHead l) v; ECrash])
                end
       end
   | ORemove a =>
@@ -562,12 +562,12 @@ Definition step (t : nat) (s : st) : option (st * list ev) :=
         | [] => None
         | o :: r => start (set_prog s t r) t o
         end
-    | PCrash => None
+    | PCrash _ => None
     (* ---------------- push_back ---------------- *)
     (* :145  pred_link = sentinel_.self.load(acquire); a null pred_link is dereferenced at :148 *)
     | PB1 b =>
         match l_sself (lst s 0) with
-        | None => Some (with_crash (set_pc s t PCrash) true, [ELdSelf (PSent 0) None; ECrash])
+        | None => Some (with_crash (set_pc s t (PCrash [])) true, [ELdSelf (PSent 0) None; ECrash])
         | Some k => Some (set_pc s t (PT0 (KPush b) k), [ELdSelf (PSent 0) (Some k)])
         end
     (* :153 *)
@@ -693,7 +693,7 @@ Definition step (t : nat) (s : st) : option (st * list ev) :=
     (* :319-324 *)
     | PL2 h =>
         match l_sself (lst s 0) with
-        | None => Some (with_crash (set_pc s t PCrash) true, [ELdSelf (PSent 0) None; ECrash])
+        | None => Some (with_crash (set_pc s t (PCrash [LHead 0])) true, [ELdSelf (PSent 0) None; ECrash])
         | Some k => Some (set_pc s t (PT0 (KDrain h) k), [ELdSelf (PSent 0) (Some k)])
         end
     (* :327-335 *)
